@@ -166,8 +166,21 @@ CHECKS = {
                 "progress); printed text and argparse's own status are outside the model.",
         "technique": "Coq proof of the CLI decision logic over the outcome enum + exhaustive string correspondence + process exploration",
     },
+    "C20": {
+        "text": "Live-byte accounting over the decompressor state machine of Decomp.v (Mem.v): with decoders that honour max_length every "
+                "call returns <= max_length bytes, the carry-over buffer never grows, and the managed bytes are <= 2*max_block + "
+                "block_size whatever the member size (worker_live_bounded); for stages that ignore max_length the carry-over is bounded by "
+                "one input block's expansion (ratio * block_size + c0) and is unbounded in the ratio (refutation + exact characterisation); "
+                "the compress loop holds one block plus its compressed form. Harness: toy chains through the real SevenZipDecompressor/"
+                "Compressor compared number by number; real codecs in sandboxed children (bounds per call); peak RSS above baseline of "
+                "workers writing/extracting 128-768 MiB (quick) / 0.5-4 GiB (thorough) members per codec family.",
+        "note": "Trusted: Coq kernel; Mem.v/Decomp.v hand models tied by correspondence; partial: codec-internal memory and the CPython "
+                "allocator are measured, not proved. Deflate/Deflate64/ZStandard/Brotli ignoring max_length and input retention in "
+                "inflate64/pyppmd are known findings.",
+        "technique": "Coq proof of buffer bounds on the streaming state machine + RSS measurement in sandboxed workers",
+    },
 }
 
 _PENDING = "check not built yet in this session (planned, see DESIGN.md section 5); not a statement that proof is inapplicable"
 NOT_APPLICABLE = {p: _PENDING for p in
-                  ["C01", "C04", "C05", "C11", "C20"]}
+                  ["C01", "C04", "C05", "C11"]}
